@@ -909,6 +909,24 @@ struct WL {
         a->w->body(a->t);
         gsim::ctr_add(1, 1);
     }
+    /// a reader that registered BEFORE the writer took its handle (so it is the oldest live
+    /// guard) and ends its read section — traversal and release of the handle — while the
+    /// writer is parked: a read section completes whatever the writers are doing
+    static void early_reader(void* p)
+    {
+        WL* w = (WL*)p;
+        {
+            auto h = static_cast<const G*>(w->g)->lock_read();
+            auto it = h->begin();
+            gsim::ev_set(60);
+            gsim::ctr_wait_ge(61, 1);  // the writer is parked (or done)
+            long sum = 0;
+            for (; it != h->end(); ++it) sum += value_of(*it);
+            gsim::hash_mix((uint64_t)sum);
+        }  // handle released here, possibly reclaiming older records
+        gsim::ctr_add(62, 1);
+        gsim::probe("rcu.early_reader_finished");
+    }
     void run_freeze()
     {
         // program thread 0 is the writer, the others are readers
@@ -916,10 +934,19 @@ struct WL {
         if (n < 1) return;
         FArg args[gsim::MAX_THREADS];
         int tids[gsim::MAX_THREADS];
+        int early = -1;
+        if (gsim::knob("early_reader", 0, 1) && n < gsim::MAX_THREADS - 2) {
+            early = gsim::spawn(early_reader, this);
+            gsim::ev_wait(60);
+        }
         args[0] = FArg{this, 0};
         tids[0] = gsim::spawn(freeze_writer, &args[0]);
         // the readers start once the writer is parked (or has finished early)
         while (!gsim::is_frozen(tids[0]) && gsim::ctr_get(3) == 0) gsim::yield();
+        if (early >= 0) {
+            gsim::ctr_add(61, 1);
+            gsim::ctr_wait_ge(62, 1);  // must finish while the writer is parked
+        }
         for (int t = 1; t < n; t++) {
             args[t] = FArg{this, t};
             tids[t] = gsim::spawn(freeze_reader, &args[t]);
@@ -931,6 +958,7 @@ struct WL {
         gsim::thaw(tids[0]);
         gsim::freeze_disarm(tids[0]);
         for (int t = 0; t < n; t++) gsim::join(tids[t]);
+        if (early >= 0) gsim::join(early);
     }
     // C05 "window" mode: the writer is parked at its k-th step inside push/erase; blips
     // and readers register and take iterators *inside that window*; the writer then
